@@ -42,6 +42,6 @@ Print Assumptions goa_request_path_isolated.
 (* the instance is not vacuous: the extraction saw locations that do need a lock (the
    pattern cache, the sampler's window start) and found the mutex protecting each *)
 Example footprint_has_locked_locations :
-  existsb (needs_lockb fp_bodies) (locations fp_bodies) = true /\
-  2 <=? length (infer_prot fp_bodies) = true /\ unprotected fp_bodies = [].
+  2 <=? length (need_list fp_bodies) = true /\
+  length (infer_prot fp_bodies) = length (need_list fp_bodies) /\ unprotected fp_bodies = [].
 Proof. split; [|split]; vm_compute; reflexivity. Qed.
